@@ -1,33 +1,93 @@
 import H4.HPIO
+import H4.HPWorld
 import H4.Driver.Util
 namespace H4.Driver
 open H4.HPIO
 
+/-! The functions TRANSLATED from the current C text of hfile.c (`H4.Gen.Fn.Hfile`, gen/c2lean.py) are run beside the hand model on
+    every `seek` / `read` / `write` line, from the model's state before the call and on the same fault outcome: the result tape
+    they are given is what the world (`H4.HPWorld`, the stdio contract) answers under that fault, their request log is replayed by
+    `serve`.  A difference in the return value, `f_cur_off`, `last_op`, the stream afterwards or the bytes delivered - or undefined
+    behaviour / fuel exhaustion of the translated code, or a request log that the contract does not accept - is appended as
+    ` GEN=…` and so shows up as a DIFF against the real C.  (`H4.Props.C16Fn` proves that no such difference exists.) -/
+namespace GenHp
+open H4.Gen.Fn.Hfile H4.HPWorld
+
+def tag (model : String) (ub oof : Bool) (diffs : List String) : String :=
+  if ub then s!"{model} GEN=ub" else if oof then s!"{model} GEN=oof" else
+  if diffs.isEmpty then model else s!"{model} GEN={",".intercalate diffs}"
+
+def cmp (name : String) (a b : Int) : List String := if a == b then [] else [s!"{name}:{a}!={b}"]
+
+/-- comparison of the world's stream after the logged requests with the model's stream (`exactPos = false`: the position only has to
+    agree when the model trusts it) -/
+def cmpStream (w : Option Stream) (m : HP) (exactPos : Bool) : List String :=
+  match w with
+  | none => ["log-not-served"]
+  | some w' =>
+    (if w'.data == m.s.data then [] else ["data"]) ++
+    (if w'.pos == m.s.pos || (!exactPos && m.last == .unknown) then [] else [s!"pos:{w'.pos}!={m.s.pos}"])
+
+def seek (h : HP) (off : Nat) (fs : Option Fault) (h' : HP) (ok : Bool) (model : String) : String :=
+  let s := HPseek 1 h.cur (opCode h.last) off [ansSeek fs] 0 []
+  tag model s.ub s.oof
+    (cmp "ret" s.ret (if ok then 0 else -1) ++ cmp "cur" s.file_rec_f_cur_off h'.cur ++ cmp "last" s.file_rec_last_op (opCode h'.last) ++
+     cmpStream (serve h.s false s.io_log [] [] [fs]) h' true)
+
+def write (h : HP) (bs : List Byte) (fs fw : Option Fault) (h' : HP) (ok : Bool) (model : String) : String :=
+  let needSeek := h.last == .read || h.last == .unknown
+  let tape := if needSeek then [ansSeek fs, ansWrite bs.length fw] else [ansWrite bs.length fw]
+  let s := HP_write 1 (opCode h.last) h.cur (toInts bs) bs.length tape 0 [] []
+  tag model s.ub s.oof
+    (cmp "ret" s.ret (if ok then 0 else -1) ++ cmp "cur" s.file_rec_f_cur_off h'.cur ++ cmp "last" s.file_rec_last_op (opCode h'.last) ++
+     cmpStream (serve h.s false s.io_log s.io_out [] (rwFaults needSeek fs fw)) h' true)
+
+def read (h : HP) (n : Nat) (cache dirty endoff : Int) (fs fr : Option Fault) (h' : HP) (res : Option (List Byte)) (model : String) : String :=
+  let needSeek := h.last == .write || h.last == .unknown
+  -- the stream the fread meets: after the implied seek (which the world serves) or as it is
+  let w1 : Stream := if needSeek then { h.s with pos := h.cur } else h.s
+  let tape := (if needSeek then [ansSeek fs] else []) ++ ansRead w1 n fr
+  let inp := delivered w1 n fr
+  let s := HP_read 1 (opCode h.last) h.cur cache dirty endoff (List.replicate n 0) n tape 0 [] inp 0
+  tag model s.ub s.oof
+    (cmp "ret" s.ret (if res.isSome then 0 else -1) ++ cmp "cur" s.file_rec_f_cur_off h'.cur ++ cmp "last" s.file_rec_last_op (opCode h'.last) ++
+     cmpStream (serve h.s false s.io_log [] inp (rwFaults needSeek fs fr)) h' false ++
+     (match res with
+      | some bs => if s.buf.take n == toInts bs then [] else ["bytes"]
+      | none => []))
+end GenHp
+
 /-- engine `hp` (stateful). Faults are in the harness's "partial" mode: a failing fread/fwrite of `n` bytes still
-    transfers `n/2` bytes and leaves the stream there; a failing fseek does not move. -/
+    transfers `n/2` bytes and leaves the stream there; a failing fseek does not move.
+    `read` lines carry `cache dirty f_end_off` of the file record (the zero-delivery branch of `HP_read`, model `hpReadZ`). -/
 def stepHp (h : HP) (args : List String) : HP × String :=
   let flt (s : String) (p : Nat) (n : Nat) : Option Fault := if s == "F" then some { pos := p + n / 2, wrote := n / 2 } else none
+  let rd (n : Nat) (fs fr : String) (cache dirty endoff : Int) : HP × String :=
+    -- stream position at the time of the fread = position after the implied seek
+    let p := (hpRead true h 0 (flt fs 0 0) none).1.s.pos
+    let zok := decide (cache ≠ 0 ∧ dirty.toNat &&& H4.Gen.Hpio.FILE_END_DIRTY ≠ 0 ∧ (n : Int) ≤ endoff - h.cur)
+    -- a fault-free short read at end of file transfers what is there (the model reports it as a failure unless `zok`)
+    match hpReadZ h n zok (flt fs 0 0) (flt fr p n) with
+    | (h', some bs) => (h', GenHp.read h n cache dirty endoff (flt fs 0 0) (flt fr p n) h' (some bs) (toHex bs))
+    | (h', none) => (h', GenHp.read h n cache dirty endoff (flt fs 0 0) (flt fr p n) h' none "fail")
   match args with
   | ["open", d] => match parseHex d with
     | some bs => (opened bs, "ok")
     | none => (h, "bad-op")
   | ["seek", off, f] => match off.toNat? with
-    | some o => let (h', ok) := hpSeek h o (flt f 0 0); (h', if ok then "ok" else "fail")
+    | some o => let (h', ok) := hpSeek h o (flt f 0 0); (h', GenHp.seek h o (flt f 0 0) h' ok (if ok then "ok" else "fail"))
     | none => (h, "bad-op")
   | ["read", n, fs, fr] => match n.toNat? with
-    | some n =>
-      -- stream position at the time of the fread = position after the implied seek
-      let p := (hpRead true h 0 (flt fs 0 0) none).1.s.pos
-      -- a fault-free short read at end of file transfers what is there (the model reports it as a failure)
-      match hpRead true h n (flt fs 0 0) (flt fr p n) with
-      | (h', some bs) => (h', toHex bs)
-      | (h', none) => (h', "fail")
+    | some n => rd n fs fr 0 0 0
     | none => (h, "bad-op")
+  | ["read", n, fs, fr, cache, dirty, endoff] => match n.toNat?, cache.toInt?, dirty.toInt?, endoff.toInt? with
+    | some n, some c, some d, some e => rd n fs fr c d e
+    | _, _, _, _ => (h, "bad-op")
   | ["write", d, fs, fw] => match parseHex d with
     | some bs =>
       let p := (hpWrite true h [] (flt fs 0 0) none).1.s.pos
       let (h', ok) := hpWrite true h bs (flt fs 0 0) (flt fw p bs.length)
-      (h', if ok then "ok" else "fail")
+      (h', GenHp.write h bs (flt fs 0 0) (flt fw p bs.length) h' ok (if ok then "ok" else "fail"))
     | none => (h, "bad-op")
   | ["dump"] => (h, toHex h.s.data)
   | _ => (h, "bad-op")
